@@ -16,16 +16,24 @@ def raw(sid, data):
     return ["raw", str(sid), "x" + data.hex()]
 
 
-def to_net(ops, kinds):
-    """conn -> tconn / wconn following the list `kinds` (cycled)"""
+def to_net(ops, kinds, rng=None, pdrop=0.0):
+    """conn -> tconn / wconn following the list `kinds` (cycled); with probability pdrop a disconnect becomes
+    'drop' (the socket is cut without a close handshake)"""
     out, k = [], 0
     for op in ops:
         if op[0] == "conn":
             out.append(["wconn"] if kinds[k % len(kinds)] == "w" else ["tconn"])
             k += 1
+        elif op[0] == "disc" and rng is not None and rng.random() < pdrop:
+            out.append(["drop", op[1]])
         else:
             out.append(op)
     return out
+
+
+def as_disc(case):
+    """the case with 'drop' written as 'disc' (for oracles that only know one way of leaving)"""
+    return (case[0], case[1], [["disc", op[1]] if op[0] == "drop" else op for op in case[2]])
 
 
 def kinds_of(ops):
@@ -79,7 +87,7 @@ def track_selection(case, obs):
             if reply == "Conn %d" % n:
                 open_s.add(n)
             n += 1
-        elif op[0] == "disc":
+        elif op[0] in ("disc", "drop"):
             open_s.discard(int(op[1])); sel.pop(int(op[1]), None)
         elif op[0] == "cmd":
             w = line_of(op).rstrip("\n").split(" ")
